@@ -37,7 +37,19 @@ type target struct {
 	joins bool     // code after an `if` that both branches reach becomes a definition of its own when it is more than one statement
 	prune []string // structs declared with only the fields the target's functions select (the others: Unit)
 	opaque []string // callees that stay outside: each becomes a parameter `<name>P` of the translated function that calls it
+	chanLog string  // a (pruned) struct that gets the ghost field `chlog`: the channel operations its methods perform, in order
+	regions []regionSpec // statements of a function translated as definitions of their own
 }
+
+// mapRangeCtx: for k, v := range m — the value variable, the key's Lean name, the map expression
+type mapRangeCtx struct {
+	val types.Object
+	key string
+	m   ast.Expr
+}
+
+// regionSpec: the first `range` statement of function fn, as a definition `name` of the variables it uses
+type regionSpec struct{ fn, name string }
 
 var targets = []target{
 	{dir: "internal/parser", files: []string{"chunk.go", "field.go", "field_parser.go", "parser.go"},
@@ -75,6 +87,11 @@ var targets = []target{
 	{dir: ".", files: []string{"server.go"}, funcs: []string{"getTopics"}, out: "Server"},
 	// what a reconnection attempt does to the request: the body re-obtained, the Last-Event-ID header set or removed
 	{dir: ".", files: []string{"client.go", "client_connection.go", "event.go"}, funcs: []string{"resetRequestBody", "Connection.resetRequest"}, out: "Reset", prune: []string{"Connection"}},
+	// Joe's loop, the parts that touch the subscribers: removeSubscriber, closeSubscribers and the fan-out of a published
+	// message (the `range` statement of start's message case, as a definition of its own)
+	{dir: ".", files: []string{"message.go", "message_fields.go", "replay.go", "server.go", "session.go", "joe.go"},
+		funcs: []string{"Joe.removeSubscriber", "Joe.closeSubscribers"}, out: "JoeLoop", prune: []string{"Joe"}, chanLog: "Joe",
+		regions: []regionSpec{{fn: "Joe.start", name: "Joe_fanout"}}},
 	// the client's back-off controller (float64 as an abstract carrier, the PRNG as the list of its draws, the clock as a parameter)
 	{dir: ".", files: []string{"client.go", "client_connection.go", "event.go"}, funcs: []string{"nextInterval", "growInterval", "backoffController.reset", "backoffController.next"}, out: "Backoff"},
 }
@@ -114,6 +131,10 @@ type tr struct {
 	phiStructs     map[string]bool       // structs with a float64 inside: structure S (φ : Type)
 	pruned         map[string]map[string]bool // structs declared with only the fields the target's functions select (the rest: Unit)
 	opaque         map[string]bool            // callees of this target that are parameters of their callers
+	chanLog        string                     // the struct that carries the ghost channel log
+	orderParam     string                     // the current function ranges over a map: the order of its keys is this parameter
+	sigOverride    *types.Signature           // set while a region of a function is translated
+	mapRanges      []mapRangeCtx              // enclosing ranges over maps, innermost last
 	opaqueParams   []string                   // … of the current function: binders to add
 	nowParam       bool                  // the current function reads the clock once: parameter (now : Int)
 	extraTy        map[*types.Var]string // Lean types of synthetic variables (the accumulator of an iterator)
@@ -265,6 +286,9 @@ func (t *tr) leanType(ty types.Type, at ast.Node) string {
 			}
 			t.structs[name] = st
 			if t.pruned[name] != nil {
+				if t.prunedSigma(name, st) {
+					return "(" + name + " σ)"
+				}
 				return name
 			}
 			if t.hasSigma(st, map[*types.Struct]bool{}) {
@@ -313,6 +337,10 @@ func (t *tr) leanType(ty types.Type, at ast.Node) string {
 			return "(Option " + t.leanType(u.Elem(), at) + ")" // *uint64: nil or a cell
 		}
 		return t.leanType(u.Elem(), at)
+	case *types.Chan:
+		return "Nat" // a channel is its identity; what is done to it is logged (ChanOp)
+	case *types.Map:
+		return "(List (" + t.leanType(u.Key(), at) + " × " + t.leanType(u.Elem(), at) + "))" // an association list; iteration order is a parameter
 	case *types.Signature:
 		// a function value without parameters (ValidReplayer.Now): a computation
 		if u.Params().Len() == 0 && u.Results().Len() == 1 {
@@ -328,6 +356,25 @@ func (t *tr) leanType(ty types.Type, at ast.Node) string {
 	}
 	die(t.pos(at), "type %s", ty)
 	return ""
+}
+
+// chanOp: a channel operation of the current function, appended to the log its receiver carries
+func (t *tr) chanOp(e *em, at ast.Node, op string) {
+	if t.recv == nil || t.chanLog == "" {
+		die(t.pos(at), "channel operation outside a method of the struct that carries the channel log")
+	}
+	r := t.nameOf(t.recv)
+	e.line("let %s := { %s with chlog := (%s).chlog ++ [%s] }", r, r, r, op)
+}
+
+// prunedSigma: a selected field of the pruned struct mentions σ
+func (t *tr) prunedSigma(name string, st *types.Struct) bool {
+	for i := 0; i < st.NumFields(); i++ {
+		if t.pruned[name][st.Field(i).Name()] && strings.Contains(t.fieldType(st.Field(i), nil), "σ") {
+			return true
+		}
+	}
+	return false
 }
 
 // isHTTPReq: an expression of type *http.Request
@@ -1176,6 +1223,20 @@ func (t *tr) call(e *em, v *ast.CallExpr) string {
 			}
 			return fmt.Sprintf("(some %q)", constant.StringVal(tv.Value))
 		}
+	case "delete":
+		if len(v.Args) == 2 {
+			if _, isMap := t.info.Types[v.Args[0]].Type.Underlying().(*types.Map); isMap {
+				t.assignTo(e, v.Args[0], "(mapDel "+t.expr(e, v.Args[0])+" "+t.expr(e, v.Args[1])+")", false)
+				return "()"
+			}
+		}
+	case "close":
+		if len(v.Args) == 1 {
+			t.chanOp(e, v, "ChanOp.close "+t.expr(e, v.Args[0]))
+			return "()"
+		}
+	case "verifHook":
+		return "()" // the verification hook (build tag verif): no effect on the program
 	case "make":
 		if len(v.Args) == 2 {
 			if sl, ok := t.info.Types[v.Args[0]].Type.Underlying().(*types.Slice); ok {
@@ -1651,6 +1712,24 @@ func (t *tr) specialMethod(e *em, v *ast.CallExpr) (string, bool) {
 			die(t.pos(v), "MessageWriter.%s", sel.Sel.Name)
 		}
 		t.assignTo(e, sel.X, "{ "+w+" with st := "+r+".2 }", false)
+		// the writer is an object every copy of the Subscription refers to: when the copy at hand is the value variable of
+		// a range over a map, the map's entry sees the writer's new state too
+		root := sel.X
+		for {
+			if se, ok := root.(*ast.SelectorExpr); ok {
+				root = se.X
+				continue
+			}
+			break
+		}
+		if id, ok := root.(*ast.Ident); ok {
+			for i := len(t.mapRanges) - 1; i >= 0; i-- {
+				if c := t.mapRanges[i]; c.val != nil && t.info.Uses[id] == c.val {
+					t.assignTo(e, c.m, "(mapSet "+t.expr(e, c.m)+" "+c.key+" "+t.nameOf(c.val)+")", false)
+					break
+				}
+			}
+		}
 		return r + ".1", true
 	}
 	if t.isResW(n) {
@@ -2156,8 +2235,27 @@ func (t *tr) isNilableTarget(lhs ast.Expr) bool {
 // simple statements: assignments, declarations, inc/dec
 func (t *tr) simple(e *em, s ast.Stmt) {
 	switch v := s.(type) {
+	case *ast.SendStmt:
+		// ch <- x: logged on the struct that carries the channel log (the goroutine whose code this is)
+		t.chanOp(e, s, "ChanOp.send "+t.expr(e, v.Chan)+" "+t.expr(e, v.Value))
+		return
 	case *ast.AssignStmt:
 		define := v.Tok == token.DEFINE
+		if len(v.Lhs) == 2 && len(v.Rhs) == 1 {
+			if ix, ok := v.Rhs[0].(*ast.IndexExpr); ok {
+				if _, isMap := t.info.Types[ix.X].Type.Underlying().(*types.Map); isMap {
+					// v, ok := m[k]
+					g := t.fresh("g")
+					mt := t.info.Types[ix.X].Type.Underlying().(*types.Map)
+					e.line("let %s := mapGet %s %s", g, t.expr(e, ix.X), t.expr(e, ix.Index))
+					if id, ok := v.Lhs[0].(*ast.Ident); !ok || id.Name != "_" {
+						t.assignTo(e, v.Lhs[0], "("+g+".getD "+t.zero(mt.Elem(), s)+")", define)
+					}
+					t.assignTo(e, v.Lhs[1], g+".isSome", define)
+					return
+				}
+			}
+		}
 		if define && len(v.Lhs) == 1 && len(v.Rhs) == 1 {
 			if lit, ok := v.Rhs[0].(*ast.FuncLit); ok {
 				t.closureDef(e, v.Lhs[0].(*ast.Ident), lit)
@@ -2584,7 +2682,8 @@ func (t *tr) stmts(e *em, list []ast.Stmt, up *kont, lc *loopCtx) {
 		t.loop(e, inner, v.Cond, nil, v.Body, k, lc)
 	case *ast.RangeStmt:
 		if v.Key != nil && v.Value != nil {
-			if id, ok := v.Key.(*ast.Ident); !ok || id.Name != "_" {
+			_, overMap := t.info.Types[v.X].Type.Underlying().(*types.Map)
+			if id, ok := v.Key.(*ast.Ident); (!ok || id.Name != "_") && !overMap {
 				die(t.pos(s), "range with a key and a value")
 			}
 		}
@@ -2848,10 +2947,22 @@ func isNilNode(n ast.Node) bool {
 func (t *tr) loop(e *em, inner *loopCtx, cond ast.Expr, rng *ast.RangeStmt, body *ast.BlockStmt, k *kont, outer *loopCtx) {
 	var rangeOver string
 	var rangeTy string
+	var mapRange *types.Map
 	if rng != nil {
 		rangeOver = t.fresh("xs")
-		rangeTy = t.leanType(t.info.Types[rng.X].Type, rng)
-		e.line("let %s : %s := %s", rangeOver, rangeTy, t.expr(e, rng.X))
+		if mt, ok := t.info.Types[rng.X].Type.Underlying().(*types.Map); ok {
+			// for k, v := range m: the keys in an order that is a parameter of the function (`order`); a key that is no
+			// longer in the map when its turn comes is skipped (Go: an entry removed before it is reached is not produced)
+			mapRange = mt
+			rangeTy = "(List " + t.leanType(mt.Key(), rng) + ")"
+			if t.orderParam == "" {
+				die(t.pos(rng), "range over a map in a function without an order parameter")
+			}
+			e.line("let %s : %s := %s", rangeOver, rangeTy, t.orderParam)
+		} else {
+			rangeTy = t.leanType(t.info.Types[rng.X].Type, rng)
+			e.line("let %s : %s := %s", rangeOver, rangeTy, t.expr(e, rng.X))
+		}
 		e.line("let %s : Int := 0", inner.hid)
 	}
 	var tys []string
@@ -2906,7 +3017,34 @@ func (t *tr) loop(e *em, inner *loopCtx, cond ast.Expr, rng *ast.RangeStmt, body
 	b.line("def %s %s(fuel : Nat) %s (%s : %s) : GoM (Step (%s) (%s)) := do", lname, t.tpDecl, strings.Join(capDecl, " "), st, sigma, sigma, rho)
 	b.ind++
 	t.unpack(b, inner, st)
-	if rng != nil {
+	mapSkip := 0
+	if rng != nil && mapRange != nil {
+		b.line("if %s < len %s then do", inner.hid, rangeOver)
+		b.ind++
+		kn := t.fresh("key")
+		if id, ok := rng.Key.(*ast.Ident); ok && id.Name != "_" {
+			kn = t.nameOf(t.info.Defs[id])
+		}
+		b.line("let %s ← idx %s %s", kn, rangeOver, inner.hid)
+		cur := t.fresh("cur")
+		b.line("let %s := mapGet %s %s", cur, t.expr(b, rng.X), kn)
+		b.line("if %s.isNone then do", cur)
+		b.ind++
+		t.fall(b, &kont{loop: inner}, inner)
+		b.ind--
+		b.line("else do")
+		b.ind++
+		mapSkip = 1
+		ctx := mapRangeCtx{key: kn, m: rng.X}
+		if rng.Value != nil {
+			if id, ok := rng.Value.(*ast.Ident); ok && id.Name != "_" {
+				b.line("let %s ← derefPtr %s", t.nameOf(t.info.Defs[id]), cur)
+				ctx.val = t.info.Defs[id]
+			}
+		}
+		t.mapRanges = append(t.mapRanges, ctx)
+		defer func() { t.mapRanges = t.mapRanges[:len(t.mapRanges)-1] }()
+	} else if rng != nil {
 		b.line("if %s < len %s then do", inner.hid, rangeOver)
 		b.ind++
 		if id, ok := rng.Value.(*ast.Ident); ok && id.Name != "_" {
@@ -2925,6 +3063,7 @@ func (t *tr) loop(e *em, inner *loopCtx, cond ast.Expr, rng *ast.RangeStmt, body
 	t.breakables = append(t.breakables, breakable{lc: inner})
 	t.stmts(b, body.List, &kont{loop: inner}, inner)
 	t.breakables = t.breakables[:len(t.breakables)-1]
+	b.ind -= mapSkip
 	if rng != nil || cond != nil {
 		b.ind--
 		b.line("else do")
@@ -3091,6 +3230,9 @@ func (t *tr) isIO(v *types.Var) bool {
 func (t *tr) function(out *em, fd *ast.FuncDecl, leanName string) {
 	obj := t.info.Defs[fd.Name].(*types.Func)
 	sig := obj.Type().(*types.Signature)
+	if t.sigOverride != nil {
+		sig = t.sigOverride // a region of the function: its receiver, and the variables the region uses as parameters
+	}
 	t.names = map[types.Object]string{}
 	t.used = map[string]int{"fuel": 1}
 	t.fname, t.nloop, t.njoin, t.aux = leanName, 0, 0, &em{}
@@ -3300,6 +3442,20 @@ func (t *tr) function(out *em, fd *ast.FuncDecl, leanName string) {
 	if t.usesJSON(fd.Body) {
 		params = append(params, "(jsonDecode : Bytes → Option Bytes)") // what json.Unmarshal(data, &string) decodes (none = an error)
 	}
+	// a range over a map: the order in which its keys come is a parameter
+	t.orderParam = ""
+	ast.Inspect(fd.Body, func(n ast.Node) bool {
+		if rs, ok := n.(*ast.RangeStmt); ok {
+			if mt, ok := t.info.Types[rs.X].Type.Underlying().(*types.Map); ok {
+				if t.orderParam != "" {
+					die(t.pos(rs), "two ranges over maps in one function")
+				}
+				t.orderParam = "order"
+				params = append(params, "(order : (List "+t.leanType(mt.Key(), rs)+"))")
+			}
+		}
+		return true
+	})
 	// callees that stay outside the translation: parameters
 	seenOpaque := map[string]bool{}
 	ast.Inspect(fd.Body, func(n ast.Node) bool {
@@ -3556,7 +3712,11 @@ func (t *tr) structDecl(out *em, name string, st *types.Struct) {
 	}
 	if acc := t.pruned[name]; acc != nil {
 		// a struct of which the translated functions use a few fields only: the others are opaque
-		out.line("structure %s where", name)
+		if t.prunedSigma(name, st) {
+			out.line("structure %s (σ : Type) where", name)
+		} else {
+			out.line("structure %s where", name)
+		}
 		for i := 0; i < st.NumFields(); i++ {
 			f := st.Field(i)
 			ty := "Unit"
@@ -3564,6 +3724,9 @@ func (t *tr) structDecl(out *em, name string, st *types.Struct) {
 				ty = t.fieldType(f, nil)
 			}
 			out.line("  %s : %s", fieldName(f.Name()), ty)
+		}
+		if name == t.chanLog {
+			out.line("  chlog : List (ChanOp (Option String))")
 		}
 		out.line("")
 		return
@@ -3661,6 +3824,7 @@ func main() {
 				}
 			}
 		}
+		t.chanLog = tg.chanLog
 		t.opaque = map[string]bool{}
 		for _, on := range tg.opaque {
 			t.opaque[on] = true
@@ -3668,7 +3832,11 @@ func main() {
 		t.pruned = map[string]map[string]bool{}
 		for _, pn := range tg.prune {
 			acc := map[string]bool{}
-			for _, fn := range tg.funcs {
+			scan := append([]string{}, tg.funcs...)
+			for _, rg := range tg.regions {
+				scan = append(scan, rg.fn)
+			}
+			for _, fn := range scan {
 				if fd := decls[fn]; fd != nil {
 					ast.Inspect(fd.Body, func(n ast.Node) bool {
 						if se, ok := n.(*ast.SelectorExpr); ok {
@@ -3696,6 +3864,37 @@ func main() {
 				os.Exit(3)
 			}
 			t.function(body, fd, strings.ReplaceAll(fn, ".", "_"))
+		}
+		for _, rg := range tg.regions {
+			fd, ok := decls[rg.fn]
+			if !ok {
+				fmt.Fprintf(os.Stderr, "translate: region: function %s not found\n", rg.fn)
+				os.Exit(3)
+			}
+			var stmt *ast.RangeStmt
+			ast.Inspect(fd.Body, func(n ast.Node) bool {
+				if rs, ok := n.(*ast.RangeStmt); ok && stmt == nil {
+					stmt = rs
+				}
+				return stmt == nil
+			})
+			if stmt == nil {
+				fmt.Fprintf(os.Stderr, "translate: region: no range statement in %s\n", rg.fn)
+				os.Exit(3)
+			}
+			fsig := info.Defs[fd.Name].(*types.Func).Type().(*types.Signature)
+			var ps []*types.Var
+			for _, fv := range t.freeVars(stmt, stmt) {
+				if fsig.Recv() != nil && fv == fsig.Recv() {
+					continue
+				}
+				ps = append(ps, fv)
+			}
+			t.sigOverride = types.NewSignatureType(fsig.Recv(), nil, nil, types.NewTuple(ps...), nil, false)
+			fd2 := *fd
+			fd2.Body = &ast.BlockStmt{Lbrace: stmt.Pos(), List: []ast.Stmt{stmt}, Rbrace: stmt.End()}
+			t.function(body, &fd2, rg.name)
+			t.sigOverride = nil
 		}
 		head := &em{}
 		head.line("import GoSSE.GoRT")
